@@ -35,7 +35,7 @@ def BOUNDS(tier):
             'models': len(cat(tier))}
 
 
-def discriminating_models():
+def discriminating_models(tier='quick'):
     out = []
     for shape in ('fork2', 'fork3', 'chainfork'):
         n = len(catalog.SHAPES[shape])
@@ -48,6 +48,14 @@ def discriminating_models():
         spec2 = {'classes': [dict(c) for c in spec['classes']], 'root': spec['root']}
         spec2['classes'][1] = dict(spec2['classes'][1], hooks={'recognize': [('require_attr', 'x')]})
         out.append(('discr2-' + shape, spec2))
+    # a custom recogniser on exactly one class of the hierarchy; its descendants are auto-recognised
+    for shape in ('chain2', 'chain3', 'fork2') + (('chainfork',) if tier == 'thorough' else ()):
+        n = len(catalog.SHAPES[shape])
+        for i in range(n):
+            for op in (('require_attr', 'x'), ('require_attr_value', 'x', 1), ('require_mapping',)):
+                spec = catalog.hierarchy(shape, ['req'] * (n - 1))
+                spec['classes'][i]['hooks'] = {'recognize': [op]}
+                out.append(('onerec-' + shape, spec))
     return out
 
 
@@ -71,7 +79,7 @@ _CAT = {}
 def cat(tier):
     if tier not in _CAT:
         c = [('hier-' + n, s) for n, s in catalog.hierarchy_models(3 if tier == 'quick' else 4)]
-        c += discriminating_models() + enum_union_models()
+        c += discriminating_models(tier) + enum_union_models()
         _CAT[tier] = c
     return _CAT[tier]
 
@@ -111,12 +119,14 @@ def docs_for(spec):
     return out
 
 
-def expected_types(spec):
+def expected_types(spec, unions=True):
     """root, Optional[root] and every Union of two classes of the model (both member orders)"""
     root = models.T(spec['root'])
     out = [[root]]
     if root[0] == 'cls':
         out.append([('opt', root)])
+        if not unions:
+            return out
         plain = [c['name'] for c in spec['classes'] if c.get('registered', True) and c.get('kind', 'plain') == 'plain']
         for a, b in itertools.combinations(plain, 2):
             out.append([('union', (('cls', a), ('cls', b))), ('union', (('cls', b), ('cls', a)))])
@@ -154,7 +164,7 @@ def run_unit(unit, tier):
     trees = docs_for(spec)
     perms = list(itertools.permutations(range(len(b.registered))))
     loads = {}
-    for variants in expected_types(spec):
+    for variants in expected_types(spec, unions=not fam.startswith('onerec')):
         # with a K-member model the K-member Union orders are the permutations explored
         for d in trees:
             for tg in tags:
